@@ -20,7 +20,8 @@ LEVEL = "exploration"
 RULE = (
     "Dates: all 3652059 ordinals (both tiers). Times: generated nanoseconds incl. every width class of trailing "
     "zeros; date-times and instants in years 1-9999 (edge biased); offsets: every whole minute within +/-18 h plus "
-    "generated seconds; years outside 1-9999 checked for sign/width and self round trip. Non-trivial: a non-zero "
+    "generated seconds; reduced- and variable-precision ISO patterns against isoformat(timespec=); years outside "
+    "1-9999 checked for sign/width and self round trip on every ISO pattern of the date, date-time and instant families. Non-trivial: a non-zero "
     "fraction, a year < 1000 or = 9999, a non-zero offset or seconds in the offset. Distinct by construction / hash."
 )
 ASSUMPTIONS = ["CPython 3.12 fromisoformat: accepts 1-9 fractional digits (truncating to microseconds), 'Z', '+HH', '+HH:MM[:SS]'"]
